@@ -28,6 +28,8 @@ func TestMain(m *testing.M) {
 func known(p gobatch.Program, got, want gobatch.Result) string { return "" }
 
 func TestAnyOrder(t *testing.T) {
+	Opts.NoMutualFuncs = rec.Known("F-C16-1")
+	Opts.NoMethodInInit = rec.Known("F-C16-2")
 	gobatch.Run(t, gobatch.Config{
 		Rec: rec, Name: "c16", N: rec.Scale(300, 3000),
 		Gen: Generate, Known: known,
